@@ -123,8 +123,9 @@ def check(repo, res, tier):
              "set up with names scipy knows, the caller's functions, tolerances and step budget; a failed step raises")
     res.rule("R-GRID", "integrate(t) / integrate2(t, method), interpreted down to the library boundary, return the initial state followed by the solution at each requested time, "
              "and hand the library integrators functions with the argument order the library uses")
-    res.rule("R-PAIRFJ", "func/jac passed to integrateFuncJac belong together (same object, matching names) and are time-first")
-    res.rule("R-FWD", "time-first wrappers forward each argument to the same-named parameter of the base method")
+    res.rule("R-PAIRFJ", "at every integrateFuncJac call site the two callables, called as scipy.integrate.ode calls them - f(t, y), jac(t, y) - on symbolic vectors, "
+             "compute one of the model's right-hand sides at (y, t) and that system's own Jacobian routine at the same point")
+    res.rule("R-FWD", "every time-first twin X_T(t, ...) returns what X returns for the same roles (recorder for X with opaque roles; sized symbolic inputs when the twin does not go through X)")
     res.rule("R-SHAPE", "matrix-valued evaluators are registered as matrices")
     res.s_clauses = ["S1/S2/S5 R-ROWS (rows, buffer aliasing, integrator table)", "S3 R-GRID", "S4 R-PAIRFJ/R-FWD", "S6 R-SHAPE(jacobian)"]
     res.n_clauses = ["each row equals the true ODE solution to solver tolerance (accuracy of scipy's integrators; the model integrator is exact by construction)",
@@ -162,117 +163,20 @@ def _jac_partner(fname):
 
 
 def _check_pairs(repo, res, integ):
-    det = repo.cls(M.M_DET, "DeterministicOde")
-    sim = M.sim_class(repo)
-    ifj = repo.func(M.M_UTILS, "integrateFuncJac")
-    n_sites = 0
-    for m in repo.modules.values():
-        for f in list(m.functions.values()) + [x for c in m.classes.values() for x in list(c.methods.values()) + list(c.setters.values())]:
-            if not any(isinstance(n, ast.Call) for n in ast.walk(f.node)):
-                continue
-            if "integrateFuncJac" not in m.src:
-                continue
-            for n, c, callee in C.calls(f):
-                if not callee.endswith("integrateFuncJac") or f.name == "integrateFuncJac":
-                    continue
-                n_sites += 1
-                res.functions.add(f.construct)
-                b = C.bind_args(c, ifj.params)
-                fn, jc = b.get("func"), b.get("jac")
-                df_ = dataflow_of(f)
-                if isinstance(fn, ast.Name):
-                    fn = df_.expand(fn, n)          # local alias of the callable (rhs = model.ode_T)
-                if isinstance(jc, ast.Name):
-                    jc = df_.expand(jc, n)
-                tag = "integrateFuncJac@%s" % norm(fn)[:40]
-                if not (isinstance(fn, ast.Attribute) and isinstance(jc, ast.Attribute)):
-                    res.undecided("R-PAIRFJ", f, tag, "func/jac are not attribute references (%s, %s)" % (norm(fn), norm(jc)), node=c)
-                    continue
-                if isinstance(fn.value, ast.Name):
-                    fn = ast.Attribute(value=df_.expand(fn.value, n), attr=fn.attr, ctx=ast.Load())    # model = self._ode
-                if isinstance(jc.value, ast.Name):
-                    jc = ast.Attribute(value=df_.expand(jc.value, n), attr=jc.attr, ctx=ast.Load())
-                same_recv = norm(fn.value) == norm(jc.value)
-                want = _jac_partner(fn.attr)
-                mf = repo.resolve_method(sim, fn.attr)
-                mj = repo.resolve_method(sim, jc.attr)
-                problems = []
-                if not same_recv:
-                    problems.append("func and jac come from different objects")
-                if want is None or jc.attr != want:
-                    problems.append("jac=%s does not belong to func=%s (expected %s)" % (jc.attr, fn.attr, want))
-                for role, mm, at in (("func", mf, fn.attr), ("jac", mj, jc.attr)):
-                    if mm is None:
-                        problems.append("%s=%s is not a method of the model class" % (role, at))
-                    elif len(mm.params) < 3 or mm.params[1] not in ("t", "time"):
-                        problems.append("%s=%s is not time-first (parameters %s) but scipy.integrate.ode calls f(t, y)" % (role, at, mm.params[1:]))
-                res.check(not problems, "R-PAIRFJ", f, tag, "(%s, %s) belong together and are time-first" % (fn.attr, jc.attr),
-                          "; ".join(problems), node=c)
+    """S4 by calling things (rules/pairx.py): the callables handed to integrateFuncJac are called as scipy.integrate.ode calls
+    them and compared with the model's systems; the time-first twins are compared with their state-first routines; the
+    odeint side (state-first evaluators, Dfun, col_deriv, tfirst) is probed by the library model of R-GRID"""
+    from ..rules import pairx as PX
+    n_sites = PX.check_callsites(repo, res, "R-PAIRFJ")
     res.floor("integrateFuncJac call sites", n_sites, 7)
-    # odeint: state-first evaluators, matching Dfun, col_deriv False
-    cs = C.calls_to(integ, ("scipy.integrate.odeint", "odeint"))
-    if not cs:
-        res.violated("R-PAIRFJ", integ, "odeint", "ode_utils.integrate no longer calls scipy.integrate.odeint")
-    for n, c, callee in cs:
-        b = C.bind_args(c, ["func", "y0", "t"])
-        op = integ.params[0]
-        fn, dj = b.get("func"), kwarg(c, "Dfun")
-        problems = []
-        if not (isinstance(fn, ast.Attribute) and norm(fn.value) == op and fn.attr == "ode"):
-            problems.append("func=%s, expected %s.ode (state-first evaluator)" % (norm(fn), op))
-        if not (isinstance(dj, ast.Attribute) and norm(dj.value) == op and dj.attr == "jacobian"):
-            problems.append("Dfun=%s, expected %s.jacobian" % (norm(dj), op))
-        cd = kwarg(c, "col_deriv")
-        if cd is not None and const_value(cd) not in (False, 0):
-            problems.append("col_deriv=%s but jacobian() returns d f_i / d x_j in row i" % norm(cd))
-        tf = kwarg(c, "tfirst")
-        if tf is not None and const_value(tf) not in (False, 0):
-            problems.append("tfirst=%s but the evaluators take (state, t)" % norm(tf))
-        if not (isinstance(b.get("y0"), ast.Name) and b["y0"].id == integ.params[1] and isinstance(b.get("t"), ast.Name) and b["t"].id == integ.params[2]):
-            problems.append("y0/t are not the wrapper's x0/t")
-        res.check(not problems, "R-PAIRFJ", integ, "odeint", "odeint(ode.ode, x0, t, Dfun=ode.jacobian, col_deriv=False)",
-                  "; ".join(problems), node=c)
-    # evaluator closures are state-first
+    # registered evaluators are state-first: the closure add_func binds is applied to (x, t) and must hand _getEvalParam those roles
+    from ..rules import evalx as EX
+    sim = M.sim_class(repo)
     add_func = repo.resolve_method(sim, "add_func")
-    inner = [x for x in add_func.node.body if isinstance(x, ast.FunctionDef)]
-    if inner:
-        ip = [a.arg for a in inner[0].args.args]
-        res.check(len(ip) == 3 and ip[1] == "state" and ip[2] in ("t", "time"), "R-PAIRFJ", add_func, "evaluator-signature",
-                  "registered evaluators take (state, t)", "registered evaluators take %s, odeint calls func(y, t)" % ip[1:], node=inner[0])
-    # R-FWD over the time-first wrappers
-    n_w = 0
-    regs = {r.name for r in M.registry(repo)}
-    for c_ in repo.mro(sim):
-        for f in c_.methods.values():
-            body = [st for st in f.node.body if not (isinstance(st, ast.Expr) and isinstance(st.value, ast.Constant))]
-            if not (len(body) == 1 and isinstance(body[0], ast.Return) and isinstance(body[0].value, ast.Call)
-                    and is_self_attr(body[0].value.func)):
-                continue
-            if not (len(f.params) >= 3 and f.params[1] in ("t", "time")):
-                continue
-            call = body[0].value
-            base = call.func.attr
-            bm = repo.resolve_method(sim, base)
-            if bm is not None:
-                bp = bm.params[1:]
-            elif base in regs:
-                bp = ["state", "t"]
-            else:
-                res.undecided("R-FWD", f, "forward", "cannot resolve base method %s" % base, node=call)
-                continue
-            n_w += 1
-            bound = C.bind_args(call, bp)
-            problems = []
-            fp = set(f.params[1:])
-            for pn, a in bound.items():
-                if isinstance(a, ast.Name) and a.id in fp and a.id != pn and a.id in bp:
-                    problems.append("wrapper argument `%s` is passed as the base method's `%s`" % (a.id, pn))
-                if isinstance(a, ast.Name) and a.id in ("t", "time") and pn not in ("t", "time"):
-                    problems.append("time is passed as `%s`" % pn)
-                if pn in ("t", "time") and isinstance(a, ast.Name) and a.id not in ("t", "time"):
-                    problems.append("`%s` is passed as time" % a.id)
-            res.check(not problems, "R-FWD", f, "forward", "%s forwards to %s with matching roles" % (f.name, base),
-                      "%s -> %s: %s" % (f.name, base, "; ".join(sorted(set(problems)))), node=call)
-    res.floor("time-first wrappers", n_w, 20)
+    bad, n_h = EX.run_histories(repo, sim, maxlen=1)
+    res.check(not bad, "R-PAIRFJ", add_func, "evaluator-signature", "registered evaluators, applied to (x, t), evaluate the compiled function at (state=x, time=t) (%d applications)" % n_h,
+              "; ".join(bad[:2]), node=add_func.node)
+    n_w = PX.check_twins(repo, res, "R-FWD")
+    res.floor("time-first wrappers", n_w, 18)
 
 
